@@ -151,6 +151,105 @@ Proof.
   destruct (u2b_row c u Hu) as [_ [_ H]]. pose proof (scalar_range u Hs). destruct H as [_ H2]; [lia | exact H2].
 Qed.
 
+(* ------------------------------------------------------------------ round trip of whole strings *)
+
+Lemma scan_fuel body a b : progress a b body ->
+  forall f1 f2 p, (length p < f1)%nat -> (length p < f2)%nat -> scan body f1 p = scan body f2 p.
+Proof.
+  intros Hp. induction f1 as [|f1 IH]; intros f2 p H1 H2; [lia|].
+  destruct f2 as [|f2]; [lia|]. destruct p as [|x p]; [reflexivity|].
+  rewrite !scan_S. specialize (Hp (x :: p)). destruct (body (x :: p)) as [|out rest]; [reflexivity|].
+  destruct Hp as [Hlt _]. apply Nat.ltb_lt in Hlt as Hlt'. rewrite Hlt'.
+  rewrite (IH f2 rest); [reflexivity | lia | lia].
+Qed.
+
+(* one iteration, then the conversion of what is left *)
+Lemma scan_step body a b : progress a b body -> forall x p,
+  scan body (S (length (x :: p))) (x :: p) =
+  match body (x :: p) with Stop => Ok [] | Adv out rest => res_map (app out) (scan body (S (length rest)) rest) end.
+Proof.
+  intros Hp x p. rewrite scan_S. pose proof (Hp (x :: p)) as H. destruct (body (x :: p)) as [|out rest]; [reflexivity|].
+  destruct H as [Hlt _]. apply Nat.ltb_lt in Hlt as Hlt'. rewrite Hlt'.
+  rewrite (scan_fuel body a b Hp (length (x :: p)) (S (length rest)) rest); [reflexivity | lia | lia].
+Qed.
+
+Lemma b2u_cons_ascii b s : b < 128 -> big5_to_utf8 (b :: s) = res_map (app [b]) (big5_to_utf8 s).
+Proof.
+  intros Hb. unfold big5_to_utf8. rewrite (scan_step _ _ _ b2u_progress). unfold b2u_body.
+  apply Z.ltb_lt in Hb. rewrite Hb. reflexivity.
+Qed.
+
+Lemma u2b_cons_ascii b s : b < 128 -> utf8_to_big5 (b :: s) = res_map (app [b]) (utf8_to_big5 s).
+Proof.
+  intros Hb. unfold utf8_to_big5. rewrite (scan_step _ _ _ u2b_progress). unfold u2b_body.
+  apply Z.ltb_lt in Hb. rewrite Hb. reflexivity.
+Qed.
+
+Lemma b2u_cons_code c u s : In (c, u) b2u_rows -> big5_to_utf8 (big5_bytes c ++ s) = res_map (app (utf8_std u)) (big5_to_utf8 s).
+Proof.
+  intros Hin. destruct (b2u_row c u Hin) as [Hc [Hs [Hl _]]].
+  destruct (enc_ok u (scalar_range u Hs)) as [He _].
+  unfold big5_bytes in *. cbn [app]. unfold big5_to_utf8. rewrite (scan_step _ _ _ b2u_progress). unfold b2u_body.
+  assert (E : (c / 256 <? 128) = false).
+  { apply Z.ltb_ge. apply Z.div_le_lower_bound; lia. }
+  rewrite E, Hl, He. reflexivity.
+Qed.
+
+Lemma u2b_body_shape s t : lead_shape s = true -> u2b_body (s ++ t) = Adv (u2b_get s) t.
+Proof.
+  destruct s as [|b0 [|b1 [|b2 [|b3 s]]]]; cbn [lead_shape]; try discriminate; intros H.
+  - apply andb_true_iff in H. destruct H as [H1 H2]. apply negb_true_iff in H1.
+    cbn [app]. unfold u2b_body. rewrite H1, H2. reflexivity.
+  - apply andb_true_iff in H. destruct H as [H H3]. apply andb_true_iff in H. destruct H as [H1 H2].
+    apply negb_true_iff in H1. apply negb_true_iff in H2.
+    cbn [app]. unfold u2b_body. rewrite H1, H2, H3. reflexivity.
+Qed.
+
+Lemma u2b_cons_code c u t : In (c, u) u2b_rows -> 128 <= u ->
+  utf8_to_big5 (utf8_std u ++ t) = res_map (app (big5_bytes c)) (utf8_to_big5 t).
+Proof.
+  intros Hin Hu. destruct (u2b_row c u Hin) as [_ [Hr H]]. destruct (H Hu) as [Hl _].
+  destruct (enc_ok u ltac:(lia)) as [_ [Hshape _]].
+  pose proof (u2b_body_shape _ t Hshape) as Hb.
+  destruct (utf8_std u ++ t) as [|x p] eqn:E.
+  { apply lead_shape_len in Hshape. apply (f_equal (@length Z)) in E. rewrite app_length in E. cbn [length] in E. lia. }
+  unfold utf8_to_big5. rewrite (scan_step _ _ _ u2b_progress). rewrite Hb.
+  unfold u2b_get. rewrite Hl. reflexivity.
+Qed.
+
+(* ASCII in front of anything is copied and does not disturb the conversion of the rest *)
+Lemma b2u_ascii_prefix a s : all_ascii a -> big5_to_utf8 (a ++ s) = res_map (app a) (big5_to_utf8 s).
+Proof.
+  induction a as [|b a IH]; intros Ha; cbn [app]; [destruct (big5_to_utf8 s); reflexivity|].
+  inversion Ha as [|? ? Hb Ha']; subst. rewrite (b2u_cons_ascii b (a ++ s) Hb), (IH Ha'). destruct (big5_to_utf8 s); reflexivity.
+Qed.
+Lemma u2b_ascii_prefix a s : all_ascii a -> utf8_to_big5 (a ++ s) = res_map (app a) (utf8_to_big5 s).
+Proof.
+  induction a as [|b a IH]; intros Ha; cbn [app]; [destruct (utf8_to_big5 s); reflexivity|].
+  inversion Ha as [|? ? Hb Ha']; subst. rewrite (u2b_cons_ascii b (a ++ s) Hb), (IH Ha'). destruct (utf8_to_big5 s); reflexivity.
+Qed.
+
+(* a Big5 string made of ASCII bytes and of codes both tables map to each other, and its UTF-8 counterpart *)
+Inductive mutual_str : list Z -> list Z -> Prop :=
+| ms_nil : mutual_str [] []
+| ms_ascii b s t : b < 128 -> mutual_str s t -> mutual_str (b :: s) (b :: t)
+| ms_code c u s t : In (c, u) b2u_rows -> In (c, u) u2b_rows -> mutual_str s t -> mutual_str (big5_bytes c ++ s) (utf8_std u ++ t).
+
+Lemma mutual_str_roundtrip s t : mutual_str s t -> big5_to_utf8 s = Ok t /\ utf8_to_big5 t = Ok s.
+Proof.
+  induction 1 as [|b s t Hb _ [IH1 IH2]|c u s t Hb Hu _ [IH1 IH2]].
+  - split; reflexivity.
+  - rewrite (b2u_cons_ascii b s Hb), (u2b_cons_ascii b t Hb), IH1, IH2. split; reflexivity.
+  - destruct (b2u_row c u Hb) as [_ [Hs _]]. pose proof (scalar_range u Hs).
+    rewrite (b2u_cons_code c u s Hb), (u2b_cons_code c u t Hu) by lia. rewrite IH1, IH2. split; reflexivity.
+Qed.
+
+Example mutual_str_nonempty : exists c u, In (c, u) b2u_rows /\ mutual_str (65 :: big5_bytes c ++ [66]) (65 :: utf8_std u ++ [66]).
+Proof.
+  destruct mutual_nonempty as [c [u [Hb [Hu _]]]]. exists c, u. split; [exact Hb|].
+  apply ms_ascii; [lia|]. apply ms_code; [exact Hb | exact Hu|]. apply ms_ascii; [lia | apply ms_nil].
+Qed.
+
 (* ------------------------------------------------------------------ non-vacuity: the model on concrete inputs *)
 
 (* (inputs that do not depend on what the tables contain) *)
